@@ -1376,4 +1376,69 @@ example : prunes exPruneArgs exPruneSt 0 = true := by decide
 example : (pruneL (0 : Int) exPruneArgs 1 exPruneSt).lsub.toList = [3,2,4,5,0, 2, 1, 4] ∧
     (pruneL (0 : Int) exPruneArgs 1 exPruneSt).lusup.toList = [10,14,12,13,11, 15, 16, 17] ∧
     (pruneL (0 : Int) exPruneArgs 1 exPruneSt).xprune.toList = [3,6,7,8] := by decide
+
+/-- **dcopy_to_ucol.c**: with `R = ucolAllRows a` (the rows `lsub[isub ..]` of the kept segments — other supernode
+than `jcol`'s, `repfnz ≠ EMPTY` — concatenated in the order `segrep[nseg-1], …, segrep[0]`) and `nextu0 = xusub[jcol]`:
+`usub[nextu0 + t] = perm_r[R[t]]`, `ucol[nextu0 + t]` = the value `dense` held for row `R[t]` (zero if that row was
+gathered before: never when the segments are disjoint, `R.Nodup`), `dense` is zero on `R` afterwards and unchanged
+elsewhere, `usub`/`ucol` are unchanged outside `[nextu0, nextu0 + |R|)`, `xusub[jcol+1] = nextu0 + |R|` and no other
+`xusub` entry changes.  With `perm_r` injective on `R` the U column has no repeated row. -/
+theorem copyToUcol_spec {K : Type} (z : K) (a : UcolArgs) (xusub : Array Nat) (usub : Array Int) (ucol dense : Array K)
+    (h : UcolWf a xusub usub.size ucol.size dense.size) :
+    let R := ucolAllRows a
+    let nextu0 := xusub.getD a.jcol 0
+    let o := copyToUcol z a xusub usub ucol dense
+    o.1.nextu = nextu0 + R.length ∧ o.2.getD (a.jcol+1) 0 = nextu0 + R.length ∧
+    (∀ k, k ≠ a.jcol + 1 → o.2.getD k 0 = xusub.getD k 0) ∧
+    (∀ t, t < R.length → o.1.usub.getD (nextu0 + t) 0 = a.permR.getD (R.getD t 0) EMPTY) ∧
+    (∀ t, t < R.length → o.1.ucol.getD (nextu0 + t) z = if R.getD t 0 ∈ R.take t then z else dense.getD (R.getD t 0) z) ∧
+    (R.Nodup → ∀ t, t < R.length → o.1.ucol.getD (nextu0 + t) z = dense.getD (R.getD t 0) z) ∧
+    (∀ r, o.1.dense.getD r z = if r ∈ R then z else dense.getD r z) ∧
+    (∀ k, k < nextu0 ∨ nextu0 + R.length ≤ k → o.1.usub.getD k 0 = usub.getD k 0 ∧ o.1.ucol.getD k z = ucol.getD k z) ∧
+    o.1.usub.size = usub.size ∧ o.1.ucol.size = ucol.size ∧ o.1.dense.size = dense.size ∧
+    (R.Nodup → (∀ r ∈ R, ∀ r' ∈ R, a.permR.getD r EMPTY = a.permR.getD r' EMPTY → r = r') →
+      ((List.range R.length).map (fun t => o.1.usub.getD (nextu0 + t) 0)).Nodup) ∧
+    (∀ bound : Int, (∀ r ∈ R, 0 ≤ a.permR.getD r EMPTY ∧ a.permR.getD r EMPTY < bound) →
+      ∀ t, t < R.length → 0 ≤ o.1.usub.getD (nextu0 + t) 0 ∧ o.1.usub.getD (nextu0 + t) 0 < bound) := by
+  intro R nextu0 o
+  obtain ⟨inv, x1, x2⟩ := copyToUcol_inv z a xusub usub ucol dense h
+  have getD_mem : ∀ t, t < R.length → R.getD t 0 ∈ R := by
+    intro t ht; simp [List.getD_eq_getElem?_getD, ht]
+  refine ⟨inv.nextu, x1, x2, inv.usub, inv.ucol, ?_, inv.dense, inv.frame, inv.szU, inv.szC, inv.szD, ?_, ?_⟩
+  · intro hnd t ht
+    rw [inv.ucol t ht, if_neg]
+    intro hmem
+    obtain ⟨s, hs, hst⟩ := List.getElem_of_mem hmem
+    have hs' : s < t := by have := hs; simp only [List.length_take] at this; omega
+    have ht' : t < (ucolAllRows a).length := ht
+    have : (ucolAllRows a)[s]'(by omega) = (ucolAllRows a)[t]'ht' := by
+      rw [List.getElem_take] at hst; rw [hst]; simp [List.getD_eq_getElem?_getD, List.getElem?_eq_getElem ht']
+    have := (List.Nodup.getElem_inj_iff hnd).1 this
+    omega
+  · intro hnd hinj
+    rw [List.nodup_iff_injective_get]
+    intro ⟨i, hi⟩ ⟨j, hj⟩ hij
+    simp only [List.length_map, List.length_range] at hi hj
+    simp only [List.get_eq_getElem, List.getElem_map, List.getElem_range] at hij
+    rw [inv.usub i hi, inv.usub j hj] at hij
+    have := hinj _ (getD_mem i hi) _ (getD_mem j hj) hij
+    simp only [List.getD_eq_getElem?_getD, List.getElem?_eq_getElem hi, List.getElem?_eq_getElem hj, Option.getD_some] at this
+    have := (List.Nodup.getElem_inj_iff hnd).1 this
+    exact Fin.ext this
+  · intro bound hb t ht
+    rw [inv.usub t ht]; exact hb _ (getD_mem t ht)
+
+/-- two segments (supernode 1 = columns 1..2, fragment of supernode 0), column 4 in its own supernode -/
+def exUcolArgs : UcolArgs := ⟨4, 3, #[0, 3, 2], #[0, -1, 1, 3, -1], #[1, 3, 0, 2, -1, -1], #[0, 1, 3, 4, 5], #[0, 1, 1, 2, 3],
+  #[2, 5, 0, 3, 4, 1, 4], #[0, 2, 5, 5, 7]⟩
+example : UcolWf exUcolArgs #[0, 0, 1, 1, 2, 77] 7 7 6 := by decide
+example : ucolAllRows exUcolArgs = [0, 3, 1, 2] := by decide
+example : (copyToUcol (0 : Int) exUcolArgs #[0, 0, 1, 1, 2, 77] #[9, 9, 50, 51, 52, 53, 54] #[7, 7, 60, 61, 62, 63, 64] #[11, 12, 13, 14, 15, 16]).1.usub.toList
+      = [9, 9, 1, 2, 3, 0, 54] ∧
+    (copyToUcol (0 : Int) exUcolArgs #[0, 0, 1, 1, 2, 77] #[9, 9, 50, 51, 52, 53, 54] #[7, 7, 60, 61, 62, 63, 64] #[11, 12, 13, 14, 15, 16]).1.ucol.toList
+      = [7, 7, 11, 14, 12, 13, 64] ∧
+    (copyToUcol (0 : Int) exUcolArgs #[0, 0, 1, 1, 2, 77] #[9, 9, 50, 51, 52, 53, 54] #[7, 7, 60, 61, 62, 63, 64] #[11, 12, 13, 14, 15, 16]).1.dense.toList
+      = [0, 0, 0, 0, 15, 16] ∧
+    (copyToUcol (0 : Int) exUcolArgs #[0, 0, 1, 1, 2, 77] #[9, 9, 50, 51, 52, 53, 54] #[7, 7, 60, 61, 62, 63, 64] #[11, 12, 13, 14, 15, 16]).2.toList
+      = [0, 0, 1, 1, 2, 6] := by decide
 end Slu.SymbArr
